@@ -140,7 +140,17 @@ Theorem C09_oracle_includes_values : forall n ops o,
   check_C09 n ops o = true -> check_C09_values ops o = true.
 Proof. exact oracle_includes_values. Qed.
 
-(* OPEN: C09_oracle_sound : forall n ops, check_C09 n ops (observe n ops) = true.
+(* (8c) the UNCONDITIONAL form of full oracle soundness is FALSE: `settle` is fuel-bounded
+   (FUEL = 300 task turns per pass); with 700 callers of one actor that is then killed the history
+   is not settled (callers remain un-polled), and the oracle's no-hang clause rejects it.  The open
+   statement therefore carries an explicit `settled` side condition (every settle ends with an
+   empty run queue and every caller quiescent) *)
+Example C09_oracle_sound_unsettled_refuted :
+  exists n ops, check_C09 n ops (observe n ops) = false.
+Proof. exists 1%nat, (repeat (OCall 0%nat None) 700 ++ [OSettle; OKill 0%nat]). vm_compute. reflexivity. Qed.
+
+(* OPEN: C09_oracle_sound_settled : forall n ops, settled_history n ops ->
+     check_C09 n ops (observe n ops) = true.   (proved so far: safety (8) and value (8b) clauses)
    GAP (value clauses now proved, (8b)): (ii) "answer no later than the first drain at/after the deadline" and "no pending caller with a
    dead callee unless its port was handed to a task" are PROGRESS statements about the
    fuel-bounded `settle`; (iii) the multi_call vector clause combines (i) with C09_multi_order.
